@@ -27,7 +27,7 @@ ASSUMPTIONS = ['a slash mark and both atoms next to it stay in one fragment (con
                'invariant, as the documentation states)']
 MECHANISMS = [('cgsmiles.pysmiles_utils', 'annotate_ez_isomers_cgsmiles'), ('cgsmiles.graph_utils', 'sort_nodes_by_attr'),
               ('cgsmiles.read_fragments', 'strip_bonding_descriptors'), ('cgsmiles.graph_utils', 'merge_graphs')]
-FINDING_FEATURES = {'stereo.cut_double_bond_needs_canonical_written_order': 'cut_db_later_fragment_writes_substituent_first'}
+FINDING_FEATURES = {'stereo.cut_double_bond_needs_canonical_written_order': ('cut_db_later_fragment_writes_substituent_first', 'db_cut_under_reordered_insertion')}
 SIZES = {'quick': 2500, 'thorough': 60000}
 
 
@@ -171,6 +171,10 @@ def make_case(rng):
 def cases(seed, tier, shard, nshards):
     rng = random.Random(f'{seed}:C15:{tier}:{shard}')
     made = 0
+    for _ in range((SIZES[tier] // 8) // nshards):
+        c = MC.random_marked_cut_case(rng, both_sides=True)
+        if c is not None:
+            yield c
     while made < SIZES[tier] // nshards:
         c = make_case(rng)
         if c is None:
@@ -199,6 +203,14 @@ def cases(seed, tier, shard, nshards):
             cc.pop('perms')
             made += 1
             yield cc
+            if rng.random() < 0.35:
+                # the same base graph (same keys), nodes inserted in another order: a case of its own, because for
+                # cuts AT a stereo double bond this is another face of the open finding (edge orientation decides
+                # which anchor pysmiles' table treats as the first one)
+                f2 = set(f) | {'reordered_insertion'}
+                if 'cut_at_stereo_double_bond' in f2:
+                    f2.add('db_cut_under_reordered_insertion')
+                yield dict(cc, check='insertion_order', features=sorted(f2))
 
 
 def translate(aa, frag_atoms):
@@ -223,7 +235,50 @@ def observed(aa, tr):
     return ez, ch
 
 
+def run_marked(case):
+    """cut through a marked single bond (slash on both sides of the cut): no stereo expectation is attached,
+    but the annotations may not depend on the order in which the same base graph lists its nodes"""
+    from cgsmiles import MoleculeResolver
+    contracts.clear()
+    viol = []
+    base = nx.Graph()
+    for n, name in case['base_graph']['nodes']:
+        base.add_node(n, fragname=name)
+    for a, b, o in case['base_graph']['edges']:
+        base.add_edge(a, b, order=o)
+    txt = case['base_string'] + '.' + case['frag_string']
+
+    def sig(aa):
+        out = set()
+        for n, lst in aa.nodes(data='ez_isomer'):
+            for tup in lst or []:
+                out.add(tuple((tuple(aa.nodes[x].get('mapping')[0]) if aa.nodes[x].get('mapping') else ('H', x)) for x in tup[:4]) + (tup[4],))
+        return out
+    try:
+        res = []
+        for k in range(3):
+            order_ = sorted(base.nodes) if k == 0 else random.Random(k * 7 + len(txt)).sample(sorted(base.nodes), len(base))
+            b2 = nx.Graph()
+            for n_ in order_:
+                b2.add_node(n_, **base.nodes[n_])
+            b2.add_edges_from((a, b, dict(d)) for a, b, d in base.edges(data=True))
+            cg, aa = MoleculeResolver.from_graph(case['frag_string'], b2).resolve()
+            res.append(sig(aa))
+        if any(r != res[0] for r in res[1:]):
+            viol.append(V('c15.insertion_order_dependent', f'{txt}: stereo annotations differ when the same base graph (same keys) lists its nodes in another order: {[sorted(r, key=str) for r in res]}'))
+    except ValueError:
+        pass      # conflicting / dangling marks are reported by pysmiles for some of these spellings
+    except Exception as err:
+        viol.append(V('c15.cut_exception.' + type(err).__name__, f'{txt} raised {type(err).__name__}: {err}'))
+    for rec in contracts.take('C15'):
+        viol.append(V(rec['clause'], f'{txt} :: {rec["msg"]}'))
+    contracts.clear()
+    return {'violations': viol, 'nontrivial': True, 'sample': txt, 'cls': ('marked_cut', tuple(case['features']), case['nfrag'])}
+
+
 def run(case):
+    if case.get('kind') == 'marked_cut':
+        return run_marked(case)
     from cgsmiles import MoleculeResolver
     contracts.clear()
     viol = []
@@ -262,6 +317,31 @@ def run(case):
             viol.append(V('c15.cut_ez', f'{txt} ({how}): stereo references {sorted(ez, key=str)}, but the generator geometry / uncut molecule has {sorted(want_ez)}'))
         if ch != want_ch:
             viol.append(V('c15.cut_chiral', f'{txt} ({how}): chirality labels {sorted(ch, key=str)}, written {sorted(want_ch)}'))
+    # the same base graph (same keys) with its nodes inserted in another order: nothing may change
+    if case.get('check') != 'insertion_order':
+        for rec in contracts.take('C15'):
+            viol.append(V(rec['clause'], f'{txt} :: {rec["msg"]}'))
+        contracts.clear()
+        return {'violations': viol, 'nontrivial': case['ncuts'] > 0, 'sample': txt,
+                'cls': (tuple(case['features']), case['ndb'], case['nfrag'], tuple(case['listing']))}
+    viol = [v for v in viol if v['clause'] == 'never']     # expectations are judged by the plain case
+    try:
+        res = {}
+        for tag_, order_ in (('key order', sorted(base.nodes)), ('shuffled insertion', random.Random(len(txt)).sample(sorted(base.nodes), len(base)))):
+            b2 = nx.Graph()
+            for n_ in order_:
+                b2.add_node(n_, **base.nodes[n_])
+            edges_ = list(base.edges(data=True))
+            if tag_ != 'key order':
+                random.Random(len(txt) + 1).shuffle(edges_)
+            b2.add_edges_from((a, b, dict(d)) for a, b, d in edges_)
+            cg2, aa2 = MoleculeResolver.from_graph(case['frag_string'], b2).resolve()
+            res[tag_] = observed(aa2, translate(aa2, case['frag_atoms']))
+        if res['key order'] != res['shuffled insertion']:
+            viol.append(V('c15.insertion_order_dependent', f'{txt}: stereo annotations differ when the same base graph (same keys) lists its nodes in another order: '
+                          f'{sorted(res["key order"][0], key=str)} vs {sorted(res["shuffled insertion"][0], key=str)}'))
+    except Exception as err:
+        viol.append(V('c15.cut_exception.' + type(err).__name__, f'{txt} (from_graph, reordered): raised {type(err).__name__}: {err}'))
     for rec in contracts.take('C15'):
         viol.append(V(rec['clause'], f'{txt} :: {rec["msg"]}'))
     contracts.clear()
